@@ -227,6 +227,7 @@ pub fn c05_show(cell: &C05Cell, devs: &BTreeMap<usize, usize>) -> i32 {
 
 pub fn c05(tier: &str) -> Report {
     let th = tier == "thorough";
+    crate::e2::set_budget(if tier == "thorough" { 900.0 } else { 240.0 });
     let mut rep = Report::new("C05", tier, "fault_enumeration");
     let mut cells: Vec<(C05Cell, usize)> = Vec::new();
     let ns: Vec<usize> = if th { vec![3, 4, 5, 6, 7] } else { vec![3, 4, 5] };
